@@ -227,7 +227,7 @@ class SimTime:
 
     @staticmethod
     def monotonic():
-        return CURRENT[0].now / core.TICKS
+        return CURRENT[0].monotonic()
 
     @staticmethod
     def sleep(dt):
@@ -237,7 +237,7 @@ class SimTime:
 
 
 def _sim_monotonic():
-    return CURRENT[0].now / core.TICKS
+    return CURRENT[0].monotonic()
 
 
 class _ThreadNS:
